@@ -214,6 +214,21 @@ for _lim in (1, 2):
             MaxSteps=50),
         depth=51)
 
+FAMILIES["life"] = dict(
+    cfg=dict(family="life", resources={"a": M(x=P("1"), r1=R("b")), "b": M(y=P("1")), "c": C(P("1"))}),
+    consts=dict(
+        Conns=TSet(["c1", "c2", "c3"]), Vers=TSet(["latest"]),
+        Rids=TSet(["a", "b", "c"]), CallRids=TSet(["a"]), ResRids=TSet(["b"]),
+        Names=TSet(["a", "b", "c"]), Keys=TSet(["x"]),
+        Vals=TSet([P("1"), P("2")]),
+        AccessOuts=TSet(["ok", "ok", "timeout"]), GetOuts=TSet(["ok", "ok", "timeout"]),
+        CallOuts=TSet(["ok", "res"]), QueryOuts=TSet(["full"]),
+        Tokens=TSet(['"t1"']), Patterns=TSet([[], [">"]]),
+        Features=TSet(["unsub", "get", "call", "events", "custom", "delete", "reset", "close", "time", "stop", "quiesce"]),
+        Weights=["int", "int", "int", "reply", "reply", "cli", "cli", "cli", "svc", "trig", "misc", "misc"],
+        MaxSteps=45),
+    depth=46)
+
 CONST_ORDER = ["Conns", "Vers", "Rids", "CallRids", "ResRids", "Names", "Keys", "Vals", "AccessOuts", "GetOuts",
                "CallOuts", "QueryOuts", "Tokens", "Patterns", "Features", "Weights", "MaxSteps"]
 
